@@ -28,6 +28,9 @@ from .core import SymMath, symabs, symfloat, symint, symmax, symmin, symround
 from .npshim import SymNP
 
 
+_MISSING = object()
+
+
 def _identity_lru_cache(*a, **kw):
     if len(a) == 1 and callable(a[0]) and not kw:
         return a[0]
@@ -90,6 +93,7 @@ def load(modnames, overrides=None, patches=None, extra=None, keep=("np",), keep_
     patches = patches or {}
     loaded = Loaded()
     saved = {}
+    saved_attr = {}
     real_lru = functools.lru_cache
     if not keep_cache:
         functools.lru_cache = _identity_lru_cache
@@ -110,6 +114,12 @@ def load(modnames, overrides=None, patches=None, extra=None, keep=("np",), keep_
             code = compile(src, path, "exec")
             saved[name] = sys.modules.get(name)
             sys.modules[name] = mod
+            parent, _, leaf = name.rpartition(".")
+            pmod = sys.modules.get(parent)
+            if pmod is not None and leaf:
+                if (parent, leaf) not in saved_attr:
+                    saved_attr[(parent, leaf)] = pmod.__dict__.get(leaf, _MISSING)
+                setattr(pmod, leaf, mod)
             if not keep_cache:
                 mod.__dict__["lru_cache"] = _identity_lru_cache
             exec(code, mod.__dict__)
@@ -121,6 +131,14 @@ def load(modnames, overrides=None, patches=None, extra=None, keep=("np",), keep_
                 sys.modules[name] = old
             else:
                 sys.modules.pop(name, None)
+        for (parent, leaf), old in saved_attr.items():
+            pmod = sys.modules.get(parent)
+            if pmod is None:
+                continue
+            if old is _MISSING:
+                pmod.__dict__.pop(leaf, None)
+            else:
+                setattr(pmod, leaf, old)
     _rewire(loaded)
     for mod in loaded.values():
         for k, v in ov.items():
